@@ -121,9 +121,9 @@ class HTMLScraper(HTMLReader, BaseHTMLScraper):
             result_meta_info = {}
 
         if result_meta_info.get('robots_no_follow'):
-            link_contexts.discard(frozenset(
-                context for context in link_contexts if context.linked
-            ))
+            link_contexts = set(
+                context for context in link_contexts if not context.linked
+            )
 
         scrape_result = ScrapeResult(link_contexts, encoding)
         scrape_result['base_url'] = base_url
@@ -669,5 +669,5 @@ class ElementWalker(object):
         return (
             element.tag == 'meta'
             and element.attrib.get('name', '').lower() == 'robots'
-            and 'nofollow' in element.attrib.get('value', '').lower()
+            and 'nofollow' in element.attrib.get('content', '').lower()
         )
